@@ -236,6 +236,23 @@ fn exec_op(sc: &Scenario, st: &mut State, op: &Op) -> OpOut {
             o.alloc = Some(a);
             return o;
         }
+        #[cfg(feature = "tz-alloc")]
+        Op::ResolveLocal { dirs, .. } => {
+            let dirv: Vec<&str> = dirs.iter().filter_map(|i| sc.dirs.get(*i).map(|s| s.as_str())).collect();
+            vfs::ASKED.lock().unwrap().clear();
+            let r = catch_unwind(AssertUnwindSafe(|| tz::timezone::TimeZoneSettings::new(&dirv, vfs::read).parse_local()));
+            let mut a = String::new();
+            for p in vfs::ASKED.lock().unwrap().iter() {
+                let _ = write!(a, "open {p:?};");
+            }
+            match r {
+                Ok(Ok(z)) => canon::zone(&mut a, z.as_ref()),
+                Ok(Err(e)) => canon::err(&mut a, &e),
+                Err(_) => a.push_str("PANIC"),
+            }
+            o.alloc = Some(a);
+            return o;
+        }
         Op::Lookup { z, t } => match zref(st, z) {
             Some(zr) => {
                 let r = call!(zr.find_local_time_type(*t).map(|l| *l));
@@ -433,6 +450,19 @@ pub fn exec_scenario(sc: &Scenario, mut per_op: impl FnMut(usize, &Op, &OpOut)) 
                 }
             }
         }
+    }
+    // the process environment is part of the configuration-independent input: the same in all three
+    // builds, different from scenario to scenario (a build that consults it gives itself away)
+    for k in ["TZ", "TZDIR"] {
+        std::env::remove_var(k);
+    }
+    match sc.seed % 3 {
+        1 => std::env::set_var("TZ", "JST-9"),
+        2 => {
+            std::env::set_var("TZ", ":Zone/A");
+            std::env::set_var("TZDIR", "/zi");
+        }
+        _ => {}
     }
     let mut hc: u64 = 0xcbf2_9ce4_8422_2325;
     let mut ha: u64 = 0xcbf2_9ce4_8422_2325;
